@@ -208,9 +208,15 @@ package sbom
 //@   assigns \nothing
 
 //@ func NodeList.indexEdges
-//@   props C11
-//@   inline
+//@   props C11, C04, C08
+//@   requires validNL(nl)
 //@   assigns \nothing
+//@   ensures [indexEdges:shape] result != nil && fresh(result) && (forall f string, t Edge_Type :: (f in result) && (t in result[f]) ==> len(result[f][t]) >= 1 && fresh(result[f][t]) && result[f][t][0] != nil && (result[f][t][0] in elems(nl.Edges)))
+//@   invariant L0: index != nil && fresh(index)
+//@   invariant L0: forall f string :: (f in index) ==> index[f] != nil && fresh(index[f])
+//@   invariant L0: forall g string, h string :: (g in index) && (h in index) && g != h ==> index[g] != index[h]
+//@   invariant L0: forall f string, t Edge_Type :: (f in index) && (t in index[f]) ==> len(index[f][t]) >= 1 && fresh(index[f][t])
+//@   invariant L0: forall f string, t Edge_Type :: (f in index) && (t in index[f]) ==> index[f][t][0] != nil && (index[f][t][0] in elems(nl.Edges))
 
 //@ func NodeList.indexRootElements
 //@   props C11
@@ -370,3 +376,36 @@ package sbom
 //@   props C14
 //@   assigns \nothing
 //@   ensures [C14:diff:scalar] added == (v1 == v2 || v2 == "" ? "" : v2) && removed == (v1 != v2 && v2 == "" ? v1 : "") && count == (v1 == v2 ? 0 : 1)
+
+// ---------------------------------------------------------------------------
+// C04 / C05 / C08: list-editing operations used by the parsers (safety part)
+// ---------------------------------------------------------------------------
+
+// two node lists whose slices do not share backing arrays (operands are separated)
+//@ pred separatedNL(a *NodeList, b *NodeList) = a != b && (arr(a.Nodes) == nil || arr(a.Nodes) != arr(b.Nodes)) && (arr(a.Edges) == nil || arr(a.Edges) != arr(b.Edges)) && (arr(a.RootElements) == nil || arr(a.RootElements) != arr(b.RootElements))
+
+// a node list without nil entries
+//@ pred validNL(nl *NodeList) = nl != nil && !(nil in elems(nl.Nodes)) && !(nil in elems(nl.Edges))
+
+//@ func NodeList.cleanEdges
+//@   props C04, C08
+//@   requires validNL(nl)
+//@   assigns nl.Edges
+//@   ensures [validNL] validNL(nl)
+
+//@ func NodeList.Add
+//@   props C04, C08
+//@   requires validNL(nl) && validNL(nl2) && separatedNL(nl, nl2)
+//@   assigns nl.Nodes, nl.Edges, nl.RootElements, (nl.Nodes)[*]
+//@   ensures [validNL] validNL(nl)
+//@   invariant L0: validNL(nl) && validNL(nl2)
+//@   invariant L1: validNL(nl) && validNL(nl2)
+//@   invariant L2: validNL(nl) && validNL(nl2)
+
+//@ func NodeList.RelateNodeListAtID
+//@   props C04, C08
+//@   requires validNL(nl) && validNL(nl2) && separatedNL(nl, nl2)
+//@   assigns nl.Nodes, nl.Edges, nl.RootElements, (nl.Edges)[*]
+//@   ensures [validNL] validNL(nl)
+//@   invariant L0: validNL(nl) && validNL(nl2) && nl2.Nodes == old(nl2.Nodes) && (arr(nl2.Nodes) == nil || arr(nl.Nodes) != arr(nl2.Nodes))
+//@   invariant L1: validNL(nl) && validNL(nl2)
